@@ -55,6 +55,8 @@ def _under_lock(n, lock_last):
 def run(ck, m):
     from rules.common import rule_memo_safety
     rule_memo_safety(ck, m, "MEMO", "C15")          # first: a memoised helper also hides the code it wraps from the rules below
+    from rules.common import rule_memo_key
+    rule_memo_key(ck, m, "MEMO")
     cg = CallGraph(m)
     # ---- R1 -----------------------------------------------------------------------------
     writers = []
@@ -150,20 +152,8 @@ def run(ck, m):
     # ---- R3 -----------------------------------------------------------------------------
     # roles of the decorators' closure variables: `lock` = the name bound to RLock() in the decorator body, `cache` = the memo container
     # (the dict / None bound next to it) - renamed in the model's private copy so the rule text does not depend on their spelling
-    from tiv.roles import rename_locals
-    for dq in ("cached", "terminal_size_cached"):
-        dfn = m.get(U, dq)
-        roles = {}
-        for st_ in dfn.body:
-            tg = st_.targets[0] if isinstance(st_, ast.Assign) and len(st_.targets) == 1 else (st_.target if isinstance(st_, ast.AnnAssign) and st_.value is not None else None)
-            v_ = getattr(st_, "value", None)
-            if isinstance(tg, ast.Name) and v_ is not None:
-                if isinstance(v_, ast.Call) and (call_name(v_) or "").split(".")[-1] == "RLock":
-                    roles.setdefault(tg.id, "lock")
-                elif (isinstance(v_, ast.Dict) and not v_.keys) or (isinstance(v_, ast.Constant) and v_.value is None) or (isinstance(v_, ast.Call) and call_name(v_) == "dict" and not v_.args):
-                    roles.setdefault(tg.id, "cache")
-        if sorted(roles.values()) == ["cache", "lock"]:
-            ck.extra.setdefault("roles", {})[dq] = rename_locals(dfn, roles)
+    from rules.common import memo_decorator_roles
+    memo_decorator_roles(ck, m)
     cached = m.get(U, "cached")
     cw = m.get(U, "cached.cached_wrapper")
     inv = m.get(U, "cached.invalidate")
@@ -193,10 +183,16 @@ def run(ck, m):
     lock_binds = [st for t, st in stores_in(ast.Module(body=tsc.body, type_ignores=[])) if isinstance(t, ast.Name) and t.id == "lock"]
     ck.ob("R3", tsc, len(lock_binds) == 1 and call_name(getattr(lock_binds[0], "value", None)) == "RLock", "terminal_size_cached: one RLock per decorated function",
           stmt="terminal_size_cached: lock = RLock()")
+    n_ts_store = 0
     for n in body_walk(tw):
         if isinstance(n, ast.Call) and call_name(n) == "func":
             ck.ob("R3", enclosing_stmt(n), _under_lock(n, "lock"), "func() called outside the lock in terminal_size_cached_wrapper", stmt="ts_wrapper: func under lock")
-        if isinstance(n, ast.Assign) and any(isinstance(t, ast.Name) and t.id == "cache" for t in n.targets):
+        if isinstance(n, ast.Assign) and (any(isinstance(t, ast.Name) and t.id == "cache" for t in n.targets)
+                                          or (any(isinstance(t, (ast.Subscript, ast.Attribute)) for t in n.targets)
+                                              and any(isinstance(c_, ast.Call) and call_name(c_) == "func" for c_ in ast.walk(trace(tw, n.value, use=n))))):
+            # (whatever it is stored into - a variable, an entry per argument tuple - every stored value carries the size it was computed under:
+            # one stamp shared by several entries is refreshed by any of them and then vouches for all the others)
+            n_ts_store += 1
             ok = _under_lock(n, "lock") and isinstance(n.value, ast.Tuple) and len(n.value.elts) == 2
             key = norm(n.value.elts[1]) if ok else None
             cmp_ok = ok and any(isinstance(c, ast.Compare) and key in [norm(c.left)] + [norm(x) for x in c.comparators] for c in body_walk(tw))
@@ -204,6 +200,7 @@ def run(ck, m):
             ck.ob("R3", n, ok and cmp_ok and bound_once,
                   "terminal_size_cached must store, under the lock, the pair (value, terminal size) with the very terminal size it compared",
                   stmt="ts_wrapper: store (value, ts)")
+    ck.expect(n_ts_store >= 1, "terminal_size_cached_wrapper: the statement that stores the computed value not recognised")
 
     # ---- R4 -----------------------------------------------------------------------------
     gcs = m.get(U, "get_cell_size")
